@@ -115,7 +115,9 @@ func httpReuseRound(r *ev.Run, rng *gen.Rand, rig *tlsRig, sock string, round in
 	// one request per connection (keep-alives off): every request is a new TLS connection from the same unnamed peer address
 	clientFor := func(id *tlsIdentity) *http.Client {
 		return &http.Client{Timeout: 20 * time.Second, Transport: &http.Transport{
-			DialContext:       func(ctx context.Context, _, _ string) (net.Conn, error) { return (&net.Dialer{}).DialContext(ctx, "unix", sock) },
+			DialContext: func(ctx context.Context, _, _ string) (net.Conn, error) {
+				return (&net.Dialer{}).DialContext(ctx, "unix", sock)
+			},
 			TLSClientConfig:   &tls.Config{Certificates: []tls.Certificate{id.cert}, InsecureSkipVerify: true},
 			DisableKeepAlives: true}}
 	}
